@@ -610,7 +610,7 @@ def run_cache_case(case, memos=None):
                 fail = "op %d: %s(%s%s) %s%s" % (
                     i, op["f"], json.dumps(op["pos"]),
                     (", **" + json.dumps(op["kw"])) if op["kw"] else "", what,
-                    " [cache hit]" if hit else "")
+                    " [cache hit]" if (hit and st != 2) else "")
     finally:
         cached.MAX_SIZE = old_max
         cached.Cache.clear_cache()
@@ -1241,6 +1241,9 @@ def run_obj_checks(run, nworlds):
     return results
 
 
+_REPLAY_N = [0]
+
+
 def replay_obj_case(case, scratch):
     """Re-create an equivalent object: a file holding exactly data8/8."""
     np = _np()
@@ -1248,23 +1251,29 @@ def replay_obj_case(case, scratch):
     from . import gen
     data = np.array(case["data8"], dtype=np.float64) / 8
     n = len(data)
-    path = os.path.join(scratch, "replay_obj.rtdc")
+    _REPLAY_N[0] += 1
+    path = os.path.join(scratch, "replay_obj_%d_%d.rtdc" % (os.getpid(), _REPLAY_N[0]))
     spec = dict(n=n, features={"deform": data}, meta=gen.base_meta())
     kind = case["obj"]
     if kind == "dict":
         ds = dclab.new_dataset({"deform": data.copy()})
-        return run_obj_ops(ds["deform"], case["data8"], case["ops"])
-    gen.write_spec(path, spec)
-    ds = dclab.new_dataset(path)
-    if kind in ("hdf5", "basin", "ancillary"):
-        return run_obj_ops(ds["deform"], case["data8"], case["ops"])
-    ch = dclab.new_dataset(ds)
-    ch.rejuvenate()
-    if kind == "grandchild":
-        ch2 = dclab.new_dataset(ch)
-        ch2.rejuvenate()
-        return run_obj_ops(ch2["deform"], case["data8"], case["ops"])
-    return run_obj_ops(ch["deform"], case["data8"], case["ops"])
+        obj = ds["deform"]
+    else:
+        gen.write_spec(path, spec)
+        ds = dclab.new_dataset(path)
+        if kind in ("hdf5", "basin", "ancillary"):
+            obj = ds["deform"]
+        else:
+            ch = dclab.new_dataset(ds)
+            ch.rejuvenate()
+            if kind == "grandchild":
+                ch = dclab.new_dataset(ch)
+                ch.rejuvenate()
+            obj = ch["deform"]
+    res = run_obj_ops(obj, case["data8"], case["ops"])
+    res["render"] = "(1, 1, %s, %s)" % (common.zlist(case["data8"]),
+                                        common.clist(res["rops"]))
+    return res
 
 
 # --------------------------------------------------------------------------
@@ -1302,6 +1311,17 @@ def exec_case(case, scratch, memos=None):
     raise ValueError("unknown case kind %r" % (k,))
 
 
+def _exec_worker(arg):
+    case, scratch = arg
+    d = os.path.join(scratch, "w%d" % os.getpid())
+    os.makedirs(d, exist_ok=True)
+    try:
+        return exec_case(case, d)
+    except Exception as e:
+        import traceback
+        return {"crash": "%r\n%s" % (e, traceback.format_exc()[-1500:])}
+
+
 MODEL_FN = {"cache": ("cache_flat", CACHE_HEADER), "hashfile": ("hashfile_flat", HF_HEADER),
             "lcl": ("lcl_flat", LCL_HEADER), "obj": ("obj_flat", OBJ_HEADER)}
 
@@ -1323,15 +1343,19 @@ def run(run):
     for _ in range(600 if t else 80):
         cases.append(gen_lcl_case(rng, t))
 
-    memos = get_memos()
-    done = []
-    try:
-        for c in cases:
-            res = exec_case(c, run.scratch, memos)
-            done.append((c, res))
-    finally:
-        for m in memos.values():
-            m.restore()
+    import multiprocessing
+    # the caches are process-global: every case runs in a worker of its own
+    # pool slot (fork), cases are independent of each other
+    order = sorted(range(len(cases)), key=lambda i: -len(cases[i].get("ops", [])))
+    with multiprocessing.get_context("fork").Pool(min(common.NCPU, 12)) as pool:
+        results = pool.map(_exec_worker, [(cases[i], run.scratch) for i in order],
+                           chunksize=1)
+    done = [None] * len(cases)
+    for i, res in zip(order, results):
+        if "crash" in res:
+            raise RuntimeError("case %d (%s) crashed: %s" % (
+                i, cases[i].get("kind"), res["crash"]))
+        done[i] = (cases[i], res)
     done += run_obj_checks(run, 6 if t else 2)
 
     by_kind = {}
